@@ -398,6 +398,7 @@ var accessPool = []string{
 	"1844674407370955161", "18446744073709551609", "18446744073709551620", "00000000000000000000000001", "-00000000000000000000000001",
 	"123456789012345678", "1234567890123456789", "-123456789012345678", "+12345678901234567", "12345678901234567x", "999999999999999999",
 	"2147483647", "2147483648", "-2147483648", "4294967296",
+	"*3", "*12", "*+7", "*007", "*1", "*256", "%2A3", "1e30", "Infinity", "10.0",
 	"t", "T", "true", "TRUE", "True", "tRue", "f", "F", "false", "FALSE", "False", "fALSE", "yes", "no", "on", "2", "01", "true ",
 	"0.0", "-0.0", "inf", "-Inf", "nan", "NaN", "1e400", "-1e400", "1e-400", "0x1p-2", "1_0.5", ".5", "5.", "+.e1", "3.14159", "1e",
 	strings.Repeat("9", 40), strings.Repeat("a", 70), strings.Repeat(" ", 65), strings.Repeat("%", 3),
